@@ -177,7 +177,7 @@ def run(ctx):
 
 MANIFEST = {
     "category": "other",
-    "technique": "order-law enumeration over the exhaustive decision table of Access::partial_cmp + fold-step law (shared table with C32) + arbitrary-pick lint over resolved iterator calls",
+    "technique": "order-law enumeration over the exhaustive decision table of Access::partial_cmp + fold-step law (shared table with C32) + arbitrary-pick lint over resolved iterator calls; must-pass rule on the transitive member traversal (sub-groups always expanded)",
     "text": "Partial: decides the lawfulness of the ordering that every tie-break relies on, the order-insensitivity of the fold over hash-ordered heads, and the absence of untriaged arbitrary picks. Convergence over histories is not decided.",
     "note": "Trusted: rustc MIR, driver, abstract interpreter; conditions are abstracted as a total order (or absent).",
 }
